@@ -146,14 +146,29 @@ def exec_case(case):
         import yaml
         pats = case["patterns"] if case["source"] == "yaml" else case["patterns"][1::2]
         extra[".thailint.yaml"] = yaml.safe_dump({"ignore": pats, "magic-numbers": {"enabled": True}})
+    pre, post = [], []
+    if case["source"] == "json":
+        import json as _json
+        extra[".thailint.json"] = _json.dumps({"ignore": case["patterns"]})
+    elif case["source"] == "pyproject":
+        from ..gen import configs
+        extra["pyproject.toml"] = configs.to_toml({"ignore": case["patterns"]})
+    elif case["source"] in ("opt-config", "group-opt-config"):
+        import yaml
+        extra["custom_rules.yaml"] = yaml.safe_dump({"ignore": case["patterns"], "file-placement": {"global_deny": [".*"]}})
+        if case["source"] == "opt-config":
+            post = ["--config", "custom_rules.yaml"]
+        else:
+            pre = ["--config", "custom_rules.yaml"]
     runner.write_tree(d, dict(files, **extra))
     for dd in case["dirs"]:
         if dd:
             os.makedirs(os.path.join(d, dd), exist_ok=True)
     res = {}
     flags = [] if case["recursive"] else ["--no-recursive"]
-    for name, argv in (("placement", ["file-placement", "--format", "json", "--rules", '{"global_deny": [".*"]}'] + flags + case["targets"]),
-                       ("magic", ["magic-numbers", "--format", "json"] + flags + case["targets"])):
+    fp_rules = ["--rules", '{"global_deny": [".*"]}'] if not post and not pre else []
+    for name, argv in (("placement", pre + ["file-placement", "--format", "json"] + fp_rules + post + flags + case["targets"]),
+                       ("magic", pre + ["magic-numbers", "--format", "json"] + post + flags + case["targets"])):
         r = runner.cli(argv, d)
         vs = r.violations()
         res[name] = {"exit": r.exit, "files": None if vs is None else sorted({os.path.normpath(v["file_path"]) for v in vs}), "err": r.err[-300:], "argv": argv}
@@ -174,7 +189,7 @@ def run(ctx):
         if not files:
             continue
         pats = gen_patterns(rng, dirs, files)
-        source = rng.choice(["none", "thailintignore", "yaml", "both"]) if pats else "none"
+        source = rng.choice(["none", "thailintignore", "yaml", "both", "json", "pyproject", "opt-config", "group-opt-config"]) if pats else "none"
         if source == "none":
             pats = []
         kind = rng.choice(["dot", "dot", "sub", "files", "mixed", "named-excluded"])
@@ -197,7 +212,7 @@ def run(ctx):
         cases.append({"i": i, "dirs": dirs, "files": files, "patterns": pats, "source": source, "targets": targets,
                       "recursive": rng.random() < 0.8, "kind": kind})
     outs = runner.pmap(exec_case, cases, timeout=600)
-    cfgnames = {".thailintignore", ".thailint.yaml"}
+    cfgnames = {".thailintignore", ".thailint.yaml", ".thailint.json", "pyproject.toml", "custom_rules.yaml"}
     for case, o in zip(cases, outs):
         if not o.get("ok"):
             ctx.inconclusive_if(True, "case failed in harness: %s" % str(o)[:300])
